@@ -123,7 +123,7 @@ func init() {
 				cse := core.MkCase("C05", "run", i, seed, p)
 				cse.Race = true
 				cse.Procs = pick(r, 1, 2, 16)
-				cse.TimeoutMS = 45000
+				cse.TimeoutMS = 90000
 				cs = append(cs, cse)
 			}
 			ns := 2
@@ -288,7 +288,7 @@ func c05Run(c *core.Case, o *core.Outcome) {
 	var r *engine.Run
 	select {
 	case r = <-done:
-	case <-time.After(bound + 15*time.Second):
+	case <-time.After(bound + 60*time.Second):
 		// leave it to the watchdog (dump classification)
 		select {}
 	}
